@@ -202,6 +202,12 @@ func runC19(p *Plan) *Result {
 				c19Secret(w, op)
 			case "reconcile":
 				name, ns := op.Args["name"], op.Args["ns"]
+				if !w.Rep.secrets.VerifWatching() {
+					// the start-up step did not register the controller with a manager: in a deployment no reconcile
+					// request would ever reach it, so the simulator delivers none
+					w.probe("reconcile-not-delivered:controller-not-registered")
+					return
+				}
 				task := w.Sim.Cur()
 				w.Sim.Yield("reconcile")
 				w.Sim.SetCur(task)
